@@ -80,7 +80,9 @@ CHECKS = {
              "parser_safe for all token lists, convert_safe, resolve_safe with tight fuel bound, complete sweep of the regenerated "
              "built-in tables), including the BEM addon (bem never raises; bem.enabled configurations are inside C07_expand_safe); the same "
              "for the stylesheet model (C07_css_expand_safe, parser over all token lists with fuel adequacy). "
-             "Lorem text, markup.href rewriting and CPython's recursion limit are implementation-oracle only (exhaustive short strings, random and "
+             "markup.href is inside the model (matchers proved equivalent to the regex denotations over tables regenerated from the compiled "
+             "patterns, props/Href.v; full expand() output compared). Lorem text and CPython's limits (recursion depth, the 4300-digit int "
+             "conversion) are implementation-oracle only (exhaustive short strings, random and "
              "mutated abbreviations, random option sets); two listed recursion-limit findings.",
         technique="Coq proof stage-wise (tokenizer, parser over all token lists, converter, snippet resolution with fuel bound, composition) + complete vm_compute sweep of generated snippet tables + exhaustive short-string outcome-class correspondence",
         ref="DESIGN.md §5 C07"),
